@@ -125,6 +125,25 @@ HARMLESS = [
         ("            _cleanup_thread_lock()\n            raise\n\n        return True",
          "            with contextlib.suppress(ValueError):\n                _cleanup_thread_lock()\n            raise\n\n        return True"),
     ], ['C12', 'C13']),
+    ('bridges: hand-over queue with an explicit maxsize=0', 'aiuti/asyncio.py', [
+        ("    q: 'queue.Queue[T]' = queue.Queue()", "    q: 'queue.Queue[T]' = queue.Queue(maxsize=0)"),
+    ], ['C16']),
+    ('batcher: done-callback written with a default argument', 'aiuti/asyncio.py', [
+        ("fut.add_done_callback(lambda _: self._forget(key))", "fut.add_done_callback(lambda _f, k=key: self._forget(k))"),
+    ], ['C04', 'C09', 'C11']),
+    ('filelock: __exit__ passes force=False explicitly', 'aiuti/filelock.py', [
+        ("    def __exit__(self, *_exc: Any) -> None:\n        self.release()", "    def __exit__(self, *_exc: Any) -> None:\n        self.release(force=False)"),
+    ], ['C02', 'C12']),
+    ('run_aw_threadsafe: the coroutine test written the other way round', 'aiuti/asyncio.py', [
+        ("    coro = aw if aio.iscoroutine(aw) else _aw_to_coro(aw)", "    coro = _aw_to_coro(aw) if not aio.iscoroutine(aw) else aw"),
+    ], ['C17']),
+    ('exhaust: maxlen passed positionally', 'aiuti/itertools.py', [
+        ("    deque(iterable, maxlen=0)", "    deque(iterable, 0)"),
+    ], ['C18']),
+    ('cache: cancellation test of the waiter kept in locals', 'aiuti/asyncio.py', [
+        ("                if not waiter.cancelled() or _being_cancelled():\n                    raise",
+         "                foreign = waiter.cancelled()\n                mine = _being_cancelled()\n                if mine or not foreign:\n                    raise"),
+    ], ['C05', 'C06']),
     ('gather_excs: loop variable renamed', 'aiuti/asyncio.py', [
         ("    for res in await aio.gather(*aws, return_exceptions=True):\n        if isinstance(res, only):\n            yield res",
          "    outcomes = await aio.gather(*aws, return_exceptions=True)\n    for outcome in outcomes:\n        if isinstance(outcome, only):\n            yield outcome"),
